@@ -89,7 +89,9 @@ func genLocal(r *sim.Rand) string {
 	}
 	s := b.String()
 	if kind == 5 {
-		s = sim.Pick(r, []string{"a b", "a@b", "<x>", "x> SIZE=1", "x@y> BODY=8BITMIME <z", ".lead", "trail.", "a\"b", "a\\b", "rcpt,other", "a;b", "a:b", " lead", "trail ", "user+tag", "\"", "\\", "sales%emea", "100%", "%s", "a%d%v"})
+		s = sim.Pick(r, []string{"a b", "a@b", "<x>", "x> SIZE=1", "x@y> BODY=8BITMIME <z", ".lead", "trail.", "a\"b", "a\\b", "rcpt,other", "a;b", "a:b", " lead", "trail ", "user+tag", "\"", "\\", "sales%emea", "100%", "%s", "a%d%v",
+			// local parts that need quoting AND hold non-ASCII characters
+			"jürgen müller", "š b", "名前 太郎", "ü;ö", "é(x)"})
 	}
 	return s
 }
@@ -149,7 +151,9 @@ func (p *c05) Gen(seed uint64, i int, tier string) (any, bool) {
 			sc.Client.DSNRet = sim.Pick(r, []string{"FULL", "HDRS"})
 		}
 		if r.Chance(1, 2) {
-			sc.Client.DSNNotify = sim.Pick(r, [][]string{{"SUCCESS"}, {"FAILURE", "DELAY"}, {"NEVER"}, {"SUCCESS", "FAILURE", "DELAY"}})
+			// (NEVER together with another value must be refused when the option is given,
+			// wherever in the list it stands)
+			sc.Client.DSNNotify = sim.Pick(r, [][]string{{"SUCCESS"}, {"FAILURE", "DELAY"}, {"NEVER"}, {"SUCCESS", "FAILURE", "DELAY"}, {"SUCCESS", "NEVER"}, {"NEVER", "DELAY"}, {"FAILURE", "DELAY", "NEVER"}})
 		}
 	}
 	if r.Chance(1, 3) {
